@@ -91,27 +91,15 @@ let chunks_of s = if s = "-" then [] else List.map bytes_of_hex (String.split_on
 let pat_bool addr i = ((addr + i) * 7 + (i / 3)) mod 3 = 0
 let pat_reg addr i = ((addr * 31) + (i * 17) + 5) mod 65536
 
-let script_handler (script : string array) : int -> hreq -> int * hres =
-  fun st r ->
-    let beh = if st < Array.length script then script.(st) else "ok" in
-    let qty = int_of_n r.h_qty and addr = int_of_n r.h_addr in
-    let isbool = (match r.h_kind with HCoils | HDiscrete -> true | _ -> false) in
-    let data n =
-      if isbool then (List.init n (fun i -> pat_bool addr i), [])
-      else ([], List.init n (fun i -> n_of_int (pat_reg addr i))) in
-    let mk n e = let (b, g) = data n in { r_bools = b; r_regs = g; r_err = e } in
-    let res =
-      match beh with
-      | "ok" -> mk qty HNone
-      | "short" -> mk (max 0 (qty - 1)) HNone
-      | "long" -> mk (qty + 1) HNone
-      | "nil" -> mk 0 HNone
-      | "eproto" -> mk qty HProtocol
-      | "eother" -> mk 0 HOther
-      | s when String.length s > 1 && s.[0] = 'e' ->
-        mk 0 (HModbus (n_of_int (int_of_string (String.sub s 1 (String.length s - 1)))))
-      | _ -> mk qty HNone in
-    (st + 1, res)
+(* scripted handler: the extracted Model/ScriptHandler.v; tokens -> behaviours *)
+let beh_of_tok t = match t with
+  | "ok" -> ShOk | "short" -> ShShort | "long" -> ShLong | "nil" -> ShNil
+  | "eproto" -> ShProto | "eother" -> ShOther
+  | s when String.length s > 1 && s.[0] = 'e' ->
+    ShErr (n_of_int (int_of_string (String.sub s 1 (String.length s - 1))))
+  | _ -> ShOk
+
+let script_of_tokens (sc : string array) : sh_beh list = List.map beh_of_tok (Array.to_list sc)
 
 let kind_str = function HCoils -> "c" | HDiscrete -> "d" | HHolding -> "h" | HInput -> "i"
 
